@@ -47,6 +47,8 @@ type c17Scenario struct {
 	CRLF      bool        `json:"crlf,omitempty"`
 	Chunks    []int       `json:"chunks,omitempty"`
 	AltChunks []int       `json:"alt_chunks,omitempty"`
+	Align     int         `json:"align,omitempty"`  // as in C01: reads end Align-2 bytes after every record boundary
+	PadTo     int         `json:"pad_to,omitempty"` // the first description is padded so that the second record starts at this offset
 }
 
 var printable = func() string {
@@ -133,6 +135,22 @@ func genC17(r *core.RNG, tier string) *c17Scenario {
 		}
 		sc.Recs = append(sc.Recs, f)
 	}
+	if r.Chance(1, 6) {
+		sc.Align = r.Range(1, 3)
+	}
+	if len(sc.Recs) > 1 && r.Chance(1, 8) {
+		// the second record's '>' lands on (or next to) a multiple of the reader's buffer size
+		first := sc.Recs[0]
+		size := 1 + len(first.Desc) + 1 + first.Len + (first.Len+69)/70
+		if first.Len == 0 {
+			size++
+		}
+		target := 4096*r.Range(1, 2) + r.Range(-1, 1)
+		if size < target {
+			sc.Recs[0].Desc = first.Desc + strings.Repeat("x", target-size)
+			sc.PadTo = target
+		}
+	}
 	return sc
 }
 
@@ -195,6 +213,8 @@ func (x *c17Run) exec() {
 	}
 	var wants []want
 	var stream []byte
+	var bounds []int
+	var pieces [][]byte
 	processBoundary()
 	if sc.FailFirst != nil {
 		// writer-side fault: a write that fails part way must not leak into later writes
@@ -261,6 +281,7 @@ func (x *c17Run) exec() {
 			}
 			wants = append(wants, want{desc, append([]byte(nil), seq.Bytes()...)})
 			stream = append(stream, out...)
+			bounds, pieces = append(bounds, len(stream)), append(pieces, out)
 			res.Probes["genbank_to_fasta_conversions"]++
 		}
 	} else {
@@ -297,6 +318,7 @@ func (x *c17Run) exec() {
 			x.key(fmt.Sprintf("write|len=%s|rem=%d", lc, f.Len%70))
 			wants = append(wants, want{f.Desc, data})
 			stream = append(stream, out...)
+			bounds, pieces = append(bounds, len(stream)), append(pieces, out)
 		}
 	}
 	if len(wants) == 0 {
@@ -319,7 +341,22 @@ func (x *c17Run) exec() {
 		}
 		return r, true
 	}
-	r1, ok := read(sc.Chunks)
+	chunks1 := sc.Chunks
+	if sc.Align != 0 && len(bounds) > 0 {
+		delta := sc.Align - 2
+		bb := bounds
+		if sc.CRLF {
+			bb = nil // offsets moved; computed again below
+			off := 0
+			for _, p := range pieces {
+				off += len(p) + bytes.Count(p, []byte("\n"))
+				bb = append(bb, off)
+			}
+		}
+		chunks1 = simpipe.AlignedChunks(bb, delta, 4096)
+		res.Probes["record_aligned_chunk_schedules"]++
+	}
+	r1, ok := read(chunks1)
 	if !ok {
 		return
 	}
@@ -485,6 +522,11 @@ func (C17) Candidates(raw json.RawMessage) []json.RawMessage {
 	if sc.FailFirst != nil {
 		c := cl()
 		c.FailFirst = nil
+		emit(c)
+	}
+	if sc.Align != 0 {
+		c := cl()
+		c.Align = 0
 		emit(c)
 	}
 	if len(sc.Chunks) > 0 {
